@@ -2,7 +2,18 @@
 PYTHONPATH=/repo, so that `qstrader` is /repo's current working tree)."""
 import json
 import math
+import os
 import sys
+
+# diagnostic only (off unless VERIF_COVERAGE=<dir> is set): line coverage of the qstrader package under the workers,
+# used to look for code the generators never reach (tools/coverage_report.sh)
+if os.environ.get('VERIF_COVERAGE'):
+    import atexit
+    import coverage
+    _COV = coverage.Coverage(data_file=os.path.join(os.environ['VERIF_COVERAGE'], '.coverage.%d' % os.getpid()),
+                             include=['*/qstrader/*'])
+    _COV.start()
+    atexit.register(lambda: (_COV.stop(), _COV.save()))
 
 import numpy as np
 import pandas as pd
